@@ -4,6 +4,15 @@ IEF = ('internal-error freedom (undefined names, locals read before assignment o
        'cannot bind, iteration over a possibly-None result) of every function reachable from the entry points')
 
 CLAIMS = {
+    'C02': {'text': 'field-missing=>False and null=>True tests precede every statistic in all ten verifiers (GUARD); kind registries agree '
+                    '(REG); every verdict counted exactly once and totals accumulated (COUNT); min/max families are mirror images '
+                    '(MIRROR); decision tables equal the documented truth tables incl. operand roles (SEM); fuzz direction by sign '
+                    'algebra, comparator shape, tolerance applied to the constraint value (FUZZ).',
+            'technique': 'typestate walk over verifier CFGs, decision-table extraction vs frozen specification tables, token-level mirror comparison, sign algebra'},
+    'C06': {'text': 'every detector path writes its flag column (MUSTFLAG) through the null-aware helper (NULLFLAG); per arm the detector '
+                    'predicate is the verifier predicate (AGREE); stale output removed unconditionally before verification and writer only '
+                    'under failures > 0 (OUTFILE); stores into the input frame only under detect_in_place (INPLACE).',
+            'technique': 'typestate must-pass-through walk, decision-table agreement between sibling implementations, guard-chain queries'},
     'C05': {'text': IEF + ' assertDataFramesEqual/assertDataFrameCorrect/assertOnDiskDataFrameCorrect/check_dataframe.',
             'technique': 'call-graph reachability + definite-assignment walk + arity check (AST)'},
     'C08': {'text': IEF + ' discover_db_table/verify_db_table.',
